@@ -498,6 +498,10 @@ class CompiledChemicals(Chemicals):
             composition_mol = composition
         self._group_wt_compositions[name] = composition_wt / composition_wt.sum()
         self._group_mol_compositions[name] = composition_mol / composition_mol.sum()
+        # Cached lookups may refer to a previous definition of this name
+        self._index_cache.clear()
+        for (phases, chemicals), cache in tmo.indexer.MaterialIndexer._index_caches.items():
+            if chemicals is self: cache.clear()
     
     @property
     def chemical_groups(self) -> frozenset[str]:
